@@ -1,5 +1,7 @@
 """C11 A deep copy is equal, exact and fully independent."""
 import copy
+import datetime
+import decimal
 
 from .. import common, gen, ops, walker, storemodel
 from autobean_refactor import models
@@ -9,13 +11,15 @@ from autobean_refactor.models.internal.repeated import Repeated
 CASES = {'quick': 1500, 'thorough': 40000}
 GATES = {
     'quick': {'evaluations': 40000, 'copies_checked': 30000, 'independence_checks': 2500, 'edits_on_copy_changing_it': 1500,
-              'edits_on_original_changing_it': 1500, 'copies_after_claim_history': 5000, 'copied_classes': 30, 'copies_with_claimed_comment': 2000, 'container_copies': 2000},
+              'edits_on_original_changing_it': 1500, 'copies_after_claim_history': 5000, 'copied_classes': 30, 'copies_with_claimed_comment': 2000, 'container_copies': 2000,
+              'models_with_custom_indent_by': 200, 'plain_fields_compared': 100000},
     'thorough': {'evaluations': 1000000, 'copied_classes': 33},
 }
 RULE = ('case = one accepted generated document (both attribution modes; a third of the cases after a random claim/unclaim/auto-claim '
         'history that moves placeholders; half in 2..10-token blocks). Every model at every depth (trees, repeated nodes, tokens) is '
         'deep-copied: the copy must compare equal both ways, print exactly what the original spans, share no token object, be the '
-        'whole of its own store and satisfy the tree invariants M3. Then for 2 sub-models per document: 3..10 catalog edits on the copy '
+        'whole of its own store, satisfy the tree invariants M3 and carry, node by node, the same plain data (claimed flags, comment indents, '
+        'indent_by - a third of the documents get entries with a non-default indent_by first). Then for 2 sub-models per document: 3..10 catalog edits on the copy '
         '(the original document\'s token snapshot must not move), then a fresh copy is taken and 3..10 edits are applied to the original '
         '(the copy\'s snapshot must not move). One evaluation = one copy checked or one independence check per edit; non-trivial = the '
         'model has >=2 tokens, resp. the edit changed its own side; distinct = hash(text, path, op log).')
@@ -71,7 +75,27 @@ def check_copy(col, text, path, m, orig_ids, wit):
     errs = walker.check_tree(c, whole_store=True)
     if errs:
         col.violation(f'copy-tree:{errs[0][0]}:{cname}', f'deepcopy({path}): {errs[0][1]}', wit)
+        return c
+    # plain data carried by the nodes (claimed flags, comment indents, indent_by of entries ...) node by node
+    wm, wc = list(walker.walk(m, path)), list(walker.walk(c, path))
+    if [p for p, _ in wm] != [p for p, _ in wc]:
+        col.violation(f'copy-shape:{cname}', f'deepcopy({path}) has another tree shape', wit)
+        return c
+    for (p1, x), (_, y) in zip(wm, wc):
+        sx, sy = _plain_state(x), _plain_state(y)
+        col.count('plain_fields_compared', len(sx))
+        if sx != sy:
+            k = sorted(k for k in set(sx) | set(sy) if sx.get(k) != sy.get(k))[0]
+            col.violation(f'copy-plain-state:{type(x).__name__}.{k}', f'deepcopy({path}): {p1}.{k} is {sy.get(k)!r} in the copy, {sx.get(k)!r} in the original', wit)
+            return c
     return c
+
+
+_PLAIN = (str, bool, int, float, type(None), decimal.Decimal, datetime.date)
+
+
+def _plain_state(x):
+    return {k: v for k, v in vars(x).items() if isinstance(v, _PLAIN)}
 
 
 def edit_sequence(col, r, root, watched_store, label, wit, counter):
@@ -130,6 +154,12 @@ def run_case(col, r, idx):
             if walker.check_tree(f):
                 col.skip('original tree invalid after the claim history (C05/C19 decide that)')
                 return
+        if idx % 3 == 1:
+            # entries and postings with their own indent_by (docs/special/indents.md: assignable at any time)
+            for _, m in walker.tree_models(f):
+                if 'indent_by' in vars(m) and r.random() < 0.5:
+                    m.indent_by = r.choice(['  ', '\t', '      ', ' '])
+                    col.count('models_with_custom_indent_by')
         orig_ids = {id(t) for t in f.token_store}
         wit0 = {'text': text, 'acl': acl, 'lf': lf, 'claim_history': hist}
         nodes = list(walker.walk(f))
